@@ -32,14 +32,16 @@ type listCase struct {
 	Fn    string       `json:"fn"`
 	Opts  *recipe.Opts `json:"opts,omitempty"`
 	Arity int          `json:"arity"`
-	Mask  uint32       `json:"mask"`  // bit i set: position i holds a null-like item
+	Mask  uint32       `json:"mask"` // bit i set: position i holds a null-like item
 	// GroupForm: the construct is built through its ...Func variant and the items through the *Group methods
 	// (g.Null(), g.Id(..)); NullHead: real items are spelled Null().Id(x) — a statement that starts with Null()
 	// and is continued is an ordinary item
 	GroupForm bool `json:"groupform,omitempty"`
 	NullHead  bool `json:"nullhead,omitempty"`
-	Kinds []int        `json:"kinds"` // null kind per masked position (index into mutate.NullKinds)
-	Empty int          `json:"empty"` // >= 0: that (real) position holds Empty() instead
+	// AfterFailures: the statement object first goes through renders that fail (see renderListX)
+	AfterFailures bool  `json:"afterfailures,omitempty"`
+	Kinds         []int `json:"kinds"` // null kind per masked position (index into mutate.NullKinds)
+	Empty         int   `json:"empty"` // >= 0: that (real) position holds Empty() instead
 }
 
 var itemRe = regexp.MustCompile(`a[0-9][0-9]+`)
@@ -72,6 +74,49 @@ func renderList(fn string, opts *recipe.Opts, items []*recipe.Node) (string, err
 }
 
 func renderListForm(fn string, opts *recipe.Opts, items []*recipe.Node, groupForm bool) (string, error) {
+	return renderListX(fn, opts, items, groupForm, false)
+}
+
+type failingWriter struct{}
+
+func (failingWriter) Write(p []byte) (int, error) { return 0, fmt.Errorf("writer fails") }
+
+// renderListX: with afterFailures set the statement object is first put through renders that fail
+// — RenderWithFile with a nil File (a caller's slip: it panics at the first qualified identifier),
+// Render into a writer that fails — recovered as a caller would; then it is rendered for real.
+func renderListX(fn string, opts *recipe.Opts, items []*recipe.Node, groupForm, afterFailures bool) (out string, err error) {
+	if afterFailures {
+		call := recipe.Call{Fn: fn, Items: items, Opts: opts}
+		n := recipe.Id("head")
+		n.Calls = append(n.Calls, call)
+		n = n.C("Id", "tail")
+		defer func() {
+			if p := recover(); p != nil {
+				err = fmt.Errorf("panic: %v", p)
+			}
+		}()
+		b := &recipe.Builder{}
+		if groupForm {
+			b.Forms = &recipe.Decisions{Draw: func(n int) int { return n - 1 }}
+		}
+		st := b.Stmt(n)
+		func() {
+			defer func() { _ = recover() }()
+			_ = st.RenderWithFile(&bytes.Buffer{}, nil)
+		}()
+		func() {
+			defer func() { _ = recover() }()
+			_ = st.Render(failingWriter{})
+		}()
+		f := jen.NewFile("p")
+		f.NoFormat = true
+		f.Add(st)
+		buf := &bytes.Buffer{}
+		if err := f.Render(buf); err != nil {
+			return "", err
+		}
+		return buf.String(), nil
+	}
 	call := recipe.Call{Fn: fn, Items: items, Opts: opts}
 	n := recipe.Id("head")
 	n.Calls = append(n.Calls, call)
@@ -81,11 +126,11 @@ func renderListForm(fn string, opts *recipe.Opts, items []*recipe.Node, groupFor
 	if groupForm {
 		b.Forms = &recipe.Decisions{Draw: func(n int) int { return n - 1 }}
 	}
-	out, err := rt.Render(b, fr)
-	if err != nil {
-		return "", err
+	raw, rerr := rt.Render(b, fr)
+	if rerr != nil {
+		return "", rerr
 	}
-	return string(out), nil
+	return string(raw), nil
 }
 
 func checkList(c listCase) error {
@@ -118,7 +163,14 @@ func checkList(c listCase) error {
 		without = append(without, recipe.Id(id))
 		marked = append(marked, recipe.Id(id))
 	}
-	got, err := renderListForm(c.Fn, c.Opts, with, c.GroupForm)
+	if c.AfterFailures {
+		// a qualified identifier as last item (a nil File panics when it meets one); the reference lists
+		// hold it too but are built fresh and never put through a failing render
+		with = append(with, recipe.Qual("a.b/zq", "Zq"))
+		without = append(without, recipe.Qual("a.b/zq", "Zq"))
+		marked = append(marked, recipe.Qual("a.b/zq", "Zq"))
+	}
+	got, err := renderListX(c.Fn, c.Opts, with, c.GroupForm, c.AfterFailures)
 	if err != nil {
 		return fmt.Errorf("render with nulls: %v", err)
 	}
@@ -390,7 +442,7 @@ func TestC13(t *testing.T) {
 						}
 						// null kinds and the Empty position vary deterministically with the case index and seed
 						h := uint64(idx)*2654435761 + r.Seed*40503
-						c := listCase{Fn: fn, Opts: opts, Arity: arity, Mask: mask, Empty: -1, GroupForm: (h>>40)%3 == 0, NullHead: (h>>44)%3 == 0}
+						c := listCase{Fn: fn, Opts: opts, Arity: arity, Mask: mask, Empty: -1, GroupForm: (h>>40)%3 == 0, NullHead: (h>>44)%3 == 0, AfterFailures: (h>>48)%5 == 0}
 						for j := 0; j < 4; j++ {
 							c.Kinds = append(c.Kinds, int((h>>(8*uint(j)))%uint64(len(mutate.NullKinds))))
 						}
@@ -426,6 +478,10 @@ func TestC13(t *testing.T) {
 		c.Mask = rapid.Uint32().Draw(rt, "mask") & (1<<uint(c.Arity) - 1)
 		c.GroupForm = rapid.IntRange(0, 2).Draw(rt, "groupform") == 0
 		c.NullHead = rapid.IntRange(0, 2).Draw(rt, "nullhead") == 0
+		c.AfterFailures = rapid.IntRange(0, 3).Draw(rt, "afterfailures") == 0
+		if c.AfterFailures {
+			r.Class("after_failed_renders")
+		}
 		if c.GroupForm && c.NullHead {
 			r.Class("group_methods_and_continued_Null")
 		}
